@@ -217,7 +217,7 @@ def run(tier, seed, ck=None):
     if own:
         # the verdicts above are about single calls from the initial package state: histories (observe, scribble on returned slices, mutate, observe) must not change them
         from props import hidden
-        hidden.embed(ck, tier, ('scalar',), 'C07', 'a scalar encoding')
+        hidden.embed(ck, tier, ('scalar',), 'C07', 'a scalar encoding', observers=['enc'])
     return ck.finish() if own else None
 
 
